@@ -216,6 +216,13 @@ def structure_diff(e, e2, d: int, exact: bool):
 
 def oracle(case):
     """the property on the real code; deterministic and replayable from the JSON case"""
+    try:
+        return oracle_(case)
+    except Exception as ex:  # noqa: BLE001
+        return False, f"the component's own exported text is not accepted back: {type(ex).__name__}: {ex}"
+
+
+def oracle_(case):
     k = case.get("kind", "engine")
     d = int(case["decimals"])
     with fl.settings.context(decimals=d), np.errstate(all="ignore"):
@@ -329,6 +336,12 @@ def referenced(spec):
     return words
 
 
+def drop_var(case, grp, vi):
+    case["spec"][grp].pop(vi)
+    if grp == "inputs" and case.get("rows"):
+        case["rows"] = [r[:vi] + r[vi + 1:] for r in case["rows"]]
+
+
 def shrink_engine(case, fails):
     """greedy deletion of blocks, rules, terms, variables while the oracle keeps failing"""
     cur = copy.deepcopy(case)
@@ -337,11 +350,8 @@ def shrink_engine(case, fails):
         nonlocal cur
         cand = copy.deepcopy(cur)
         try:
-            if mutate(cand["spec"]) is False:
+            if mutate(cand) is False:
                 return False
-            cand.pop("rows", None)
-            if cand.get("representable"):
-                cand["rows"] = cur.get("rows")
             G.build(cand["spec"])
             if fails(cand):
                 cur = cand
@@ -357,13 +367,13 @@ def shrink_engine(case, fails):
         sp = cur["spec"]
         for bi in range(len(sp["blocks"]) - 1, -1, -1):
             budget -= 1
-            if attempt(lambda s, bi=bi: s["blocks"].pop(bi)):
+            if attempt(lambda c, bi=bi: c["spec"]["blocks"].pop(bi)):
                 changed = True
         sp = cur["spec"]
         for bi in range(len(sp["blocks"])):
             for ri in range(len(sp["blocks"][bi]["rules"]) - 1, -1, -1):
                 budget -= 1
-                if attempt(lambda s, bi=bi, ri=ri: s["blocks"][bi]["rules"].pop(ri)):
+                if attempt(lambda c, bi=bi, ri=ri: c["spec"]["blocks"][bi]["rules"].pop(ri)):
                     changed = True
         for grp in ("outputs", "inputs"):
             for vi in range(len(cur["spec"][grp]) - 1, -1, -1):
@@ -372,14 +382,14 @@ def shrink_engine(case, fails):
                 n_lin = any(t["cls"] == "Linear" for o in cur["spec"]["outputs"] for t in o["terms"])
                 if v["name"] not in refs and not (grp == "inputs" and n_lin):
                     budget -= 1
-                    if attempt(lambda s, grp=grp, vi=vi: s[grp].pop(vi)):
+                    if attempt(lambda c, grp=grp, vi=vi: drop_var(c, grp, vi)):
                         changed = True
                         continue
                 for ti in range(len(cur["spec"][grp][vi]["terms"]) - 1, -1, -1):
                     if cur["spec"][grp][vi]["terms"][ti]["name"] in referenced(cur["spec"]):
                         continue
                     budget -= 1
-                    if attempt(lambda s, grp=grp, vi=vi, ti=ti: s[grp][vi]["terms"].pop(ti)):
+                    if attempt(lambda c, grp=grp, vi=vi, ti=ti: c["spec"][grp][vi]["terms"].pop(ti)):
                         changed = True
     return cur
 
